@@ -7,6 +7,7 @@ package proxy
 // with scripted fake streams on both faces.
 
 import (
+	"google.golang.org/protobuf/types/known/timestamppb"
 	"context"
 	"errors"
 	"fmt"
@@ -149,6 +150,12 @@ func c06Run(t *testing.T, c c06Case) (out c06Outcome, verr error, herr error) {
 			switch s.K {
 			case "src":
 				m := mkSrc()
+				srcSent = append(srcSent, m)
+				cs.Push(m)
+			case "srcIdle":
+				// what an idle, caught-up source sends every second: no tasks, the watermark it sent last, a fresh time
+				m := &vfResp{Attributes: &adminservice.StreamWorkflowReplicationMessagesResponse_Messages{Messages: &replicationv1.WorkflowReplicationMessages{
+					ExclusiveHighWatermark: nextTask, ExclusiveHighWatermarkTime: timestamppb.New(time.Unix(1700000000+int64(len(srcSent)), 0))}}}
 				srcSent = append(srcSent, m)
 				cs.Push(m)
 			case "ack":
@@ -311,7 +318,7 @@ func c06Gen(t *rapid.T) c06Case {
 	c := c06Case{Mode: rapid.SampledFrom([]string{"default", "default", "lcm"}).Draw(t, "mode"), L: 4, R: 6, Shard: rapid.Int32Range(1, 12).Draw(t, "shard")}
 	n := rapid.IntRange(0, 14).Draw(t, "nsteps")
 	for i := 0; i < n; i++ {
-		k := rapid.SampledFrom([]string{"src", "src", "src", "ack", "ack", "ack", "stallInit", "unstallInit", "stallSrc", "unstallSrc", "tick"}).Draw(t, "k")
+		k := rapid.SampledFrom([]string{"src", "src", "src", "srcIdle", "srcIdle", "ack", "ack", "ack", "stallInit", "unstallInit", "stallSrc", "unstallSrc", "tick"}).Draw(t, "k")
 		c.Steps = append(c.Steps, c06Step{K: k, NoWait: rapid.IntRange(0, 2).Draw(t, "nowait") != 0})
 	}
 	c.Term = rapid.SampledFrom(c06TermKinds).Draw(t, "term")
@@ -329,7 +336,7 @@ func c06Gen(t *rapid.T) c06Case {
 		// a burst in both directions right before the termination event, not quiesced
 		var burst []c06Step
 		for i := rapid.IntRange(2, 5).Draw(t, "burstN"); i > 0; i-- {
-			burst = append(burst, c06Step{K: rapid.SampledFrom([]string{"src", "ack"}).Draw(t, "bk"), NoWait: true})
+			burst = append(burst, c06Step{K: rapid.SampledFrom([]string{"src", "ack", "srcIdle"}).Draw(t, "bk"), NoWait: true})
 		}
 		c.Steps = append(append(append([]c06Step{}, c.Steps[:c.TermAt]...), burst...), c.Steps[c.TermAt:]...)
 		c.TermAt += len(burst)
